@@ -56,6 +56,7 @@ def o_roundtrip(inp):
     if not valid_piece(cfgd, tracks):
         return [("~skip:invalid-piece", "")]
     tk = cfg.tk()
+    P.warm_up(inp.get("before"))
     bins = list(tk.velocity_bins)
     fails = []
     try:
@@ -99,6 +100,7 @@ def o_roundtrip(inp):
 
 def setup(ctx):
     ctx.oracle("roundtrip", o_roundtrip)
+    ctx.history_oracles = {"roundtrip"}
 
     def kf_d15(f):
         return f["clause"] in ("bar-grid", "duration") and has_tail([[tuple(m) for m in t] for t in f["input"]["tracks"]])
@@ -128,6 +130,7 @@ def generate(ctx):
     rng = ctx.rng
     ctx.check("roundtrip", D15_EXAMPLE)
     ctx.check("roundtrip", D16_EXAMPLE)
+    prev = None
     for i in range(ctx.n(150, 5000)):
         piece = G.gen_piece(rng, pitch_range=(21, 108), tail_ok=False)
         kw = cfg_kwargs(rng, len(piece["tracks"]), ctx.thorough)
@@ -140,6 +143,7 @@ def generate(ctx):
             ctx.count("tail(D15 class)")
         if not valid_piece(cfg.kw, piece["tracks"]):
             ctx.count("invalid-piece")
+        # the piece tokenised just before this one in the process is part of the (replayable) input
         ctx.check("roundtrip", {"cfg": kw, "tracks": piece["tracks"]})
         ctx.corr("extract", P.op_extract(piece["tracks"]))
         res = P.op_tokenise(cfg, None, piece["tracks"])
